@@ -124,6 +124,9 @@ class Gen:
                 if kind == 0: arms = [self.items(depth - 1, nlocals + 1), self.items(depth - 1, nlocals)]
                 elif kind == 1: arms = [self.items(depth - 1, nlocals) for _ in range(3)]
                 else: arms = [self.items(depth - 1, nlocals) for _ in range(4)]
+                # arms that are not neighbours with the very same body (the catch-all repeating the first arm)
+                if kind > 0 and R.random() < 0.35: arms[-1] = list(arms[0])
+                if kind == 2 and R.random() < 0.2: arms[2] = list(arms[0])
                 out.append(("match", kind, v, arms))
             elif k == "call":
                 name = R.choice(sorted(self.callees))
